@@ -463,6 +463,32 @@ theorem curve_new_spec (image domain : ArrRef) :
   unfold Curve.new checkLen
   by_cases h : image.len = domain.len <;> simp [h]
 
+/-- what is compared is the number of POINTS (`len` of the outer container), for every container shape:
+a flat sequence counts its numbers, a list of tuples / 2-D array counts its rows — never its scalars -/
+theorem curve_new_points (image domain : ArrRef) :
+    (∃ c, Curve.new image domain = .ok c) ↔ image.shape.len = domain.shape.len := by
+  rw [curve_new_spec]
+  simp only [ArrRef.len]
+  by_cases h : image.shape.len = domain.shape.len <;> simp [h]
+
+/-- agreeing in the number of scalars is neither needed nor enough: for any width `w ≥ 2` and any
+`n ≥ 1`, `n·w` flat values against `n` points of width `w` have equal `size` and are rejected, while
+`n` flat values against `n` such points differ in `size` and are accepted -/
+theorem curve_size_is_not_the_measure (n w : Nat) (hn : 1 ≤ n) (hw : 2 ≤ w) (i j : Nat) :
+    Shape.size (.flat (n * w)) = Shape.size (.points n w) ∧
+    Curve.new ⟨i, .flat (n * w)⟩ ⟨j, .points n w⟩ = .error .value ∧
+    Shape.size (.flat n) ≠ Shape.size (.points n w) ∧
+    Curve.new ⟨i, .flat n⟩ ⟨j, .points n w⟩ = .ok ⟨⟨i, .flat n⟩, ⟨j, .points n w⟩⟩ := by
+  have h1 : n * w ≠ n := by
+    intro h
+    have : n * 2 ≤ n * w := Nat.mul_le_mul_left n hw
+    omega
+  refine ⟨rfl, ?_, ?_, ?_⟩
+  · simp [curve_new_spec, ArrRef.len, Shape.len, h1]
+  · simp only [Shape.size]
+    exact fun h => h1 h.symm
+  · simp [curve_new_spec, ArrRef.len, Shape.len]
+
 /-- a setter is accepted exactly when the new array has the length of the other one; a rejected
 setter raises `ValueError` -/
 theorem curve_setter_spec (c : Curve) (s : Setter) :
@@ -500,8 +526,9 @@ theorem curve_after_inv (c : Curve) (s : Setter) (h : CInv c) : CInv (c.after s)
     · simp only [hl, ↓reduceIte]; exact hl
     · simp only [hl, ↓reduceIte]; exact h
 
-/-- **a Curve never holds an image and a domain of different lengths**: from its construction on,
-after any sequence of `SetImage` / `SetDomain` calls, accepted or rejected -/
+/-- **a Curve never holds an image and a domain of different lengths** (numbers of points, whatever
+the container shapes): from its construction on, after any sequence of `SetImage` / `SetDomain` calls,
+accepted or rejected -/
 theorem curve_inv (image domain : ArrRef) (c : Curve) (h : Curve.new image domain = .ok c)
     (ss : List Setter) : CInv (c.runSetters ss) := by
   have h0 : CInv c := by
@@ -576,9 +603,20 @@ example : normIndex 3 (-3) = some 0 ∧ normIndex 3 (-4) = none ∧ normIndex 3 
   decide
 
 /-- a curve over arrays of length 3, 3, 2: the shorter image is rejected and the curve keeps what it had -/
-example : (Curve.new ⟨0, 3⟩ ⟨1, 3⟩).toOption.map (·.runSetters [.image ⟨2, 2⟩, .domain ⟨0, 3⟩])
-    = some ⟨⟨0, 3⟩, ⟨0, 3⟩⟩ := by decide
-example : Curve.new ⟨0, 3⟩ ⟨1, 2⟩ = .error .value := by decide
+example : (Curve.new ⟨0, .flat 3⟩ ⟨1, .flat 3⟩).toOption.map
+      (·.runSetters [.image ⟨2, .flat 2⟩, .domain ⟨0, .flat 3⟩])
+    = some ⟨⟨0, .flat 3⟩, ⟨0, .flat 3⟩⟩ := by decide
+example : Curve.new ⟨0, .flat 3⟩ ⟨1, .flat 2⟩ = .error .value := by decide
+
+/-- 4 flat values against 2 pairs: the same number of scalars but 4 points against 2 — rejected, by
+the constructor and by both setters of a valid 4-point curve; 2 flat values against 2 triples: accepted -/
+example : Shape.size (.flat 4) = Shape.size (.points 2 2) ∧
+    Curve.new ⟨0, .flat 4⟩ ⟨1, .points 2 2⟩ = .error .value ∧
+    Curve.new ⟨0, .points 2 2⟩ ⟨1, .flat 4⟩ = .error .value := by decide
+example : (Curve.new ⟨0, .flat 4⟩ ⟨1, .flat 4⟩).toOption.map
+      (·.runSetters [.domain ⟨2, .points 2 2⟩, .image ⟨2, .points 2 2⟩, .domain ⟨3, .points 4 3⟩])
+    = some ⟨⟨0, .flat 4⟩, ⟨3, .points 4 3⟩⟩ := by decide
+example : Curve.new ⟨0, .flat 2⟩ ⟨1, .points 2 3⟩ = .ok ⟨⟨0, .flat 2⟩, ⟨1, .points 2 3⟩⟩ := by decide
 
 end Examples
 
